@@ -2,10 +2,16 @@
    denotes and [warnings_of] (C10/YpPrint.v) on a description of (fa, ag, lay).
 
    case line (tokens separated by blanks):
-     <fa:0|1> <ndecls> decl*  <nrules> rule*  <nlay> entry*
+     <fa:0|1> <ndecls> decl*  <nrules> rule*  <programs>  <nlay> entry*
      decl  := S <name> | T <n> <name>*n | L|R|N <n> <name>*n | E <name> <value> | A <n> <name>*n
             | X <hexnum> | Y <hexnum>                      (%expect / %expect-rr values, hex)
-     rule  := r <name> <nprods> prod*
+            | C <type>                                     (%actiontype)
+            | M <name> <type>                              (%parse-param)
+            | G <type>                                     (%parse-generics)
+            | U <n> sym*n                                  (%expect-unused)
+            | I <n> <name>*n                               (%implicit_tokens)
+     rule  := r <name> <type> <nprods> prod*               type := - | ^ <text>   (Grmtools: -> type)
+     programs := - | P <text>
      prod  := p <nsyms> sym* prec action
      sym   := r <name> | t <name>
      prec  := - | % <name>
@@ -182,6 +188,11 @@ let decode (toks : string list) : bool * agram * layout =
   let name () = text_of (next ()) in
   let names () = let k = num () in many k name in
   let fa = (next () = "1") in
+  let sym () =
+    match next () with
+    | "r" -> ARule (name ())
+    | "t" -> ATok (name ())
+    | s -> raise (Bad ("sym " ^ s)) in
   let decl () =
     match next () with
     | "S" -> DStart (name ())
@@ -193,12 +204,12 @@ let decode (toks : string list) : bool * agram * layout =
     | "A" -> DAvoid (names ())
     | "X" -> DExpect (n_of_hex (next ()))
     | "Y" -> DExpectRR (n_of_hex (next ()))
+    | "C" -> DActiontype (name ())
+    | "M" -> let n = name () in let t = name () in DParseParam (n, t)
+    | "G" -> DParseGenerics (name ())
+    | "U" -> let k = num () in DExpectUnused (many k sym)
+    | "I" -> DImplicit (names ())
     | s -> raise (Bad ("decl " ^ s)) in
-  let sym () =
-    match next () with
-    | "r" -> ARule (name ())
-    | "t" -> ATok (name ())
-    | s -> raise (Bad ("sym " ^ s)) in
   let prod () =
     if next () <> "p" then raise (Bad "prod");
     let k = num () in
@@ -209,12 +220,14 @@ let decode (toks : string list) : bool * agram * layout =
   let rule () =
     if next () <> "r" then raise (Bad "rule");
     let n = name () in
+    let ty = (match next () with "-" -> None | "^" -> Some (name ()) | s -> raise (Bad ("type " ^ s))) in
     let k = num () in
-    { ar_name = n; ar_prods = many k prod } in
+    { ar_name = n; ar_type = ty; ar_prods = many k prod } in
   let nd = num () in
   let decls = many nd decl in
   let nr = num () in
   let rules = many nr rule in
+  let progs = (match next () with "-" -> None | "P" -> Some (name ()) | s -> raise (Bad ("programs " ^ s))) in
   let gaps : (int list, n list) Hashtbl.t = Hashtbl.create 64 in
   let styles : (int list, qstyle) Hashtbl.t = Hashtbl.create 64 in
   let txts : (int list, n list) Hashtbl.t = Hashtbl.create 16 in
@@ -235,7 +248,7 @@ let decode (toks : string list) : bool * agram * layout =
   let look tbl dflt (p : nat list) =
     match Hashtbl.find_opt tbl (List.map int_of_nat p) with Some v -> v | None -> dflt in
   let lay = { l_gap = look gaps []; l_q = look styles QBare; l_txt = look txts []; l_flag = look flags false } in
-  (fa, { ag_decls = decls; ag_rules = rules }, lay)
+  (fa, { ag_decls = decls; ag_rules = rules; ag_programs = progs }, lay)
 
 let () =
   iter_lines (fun line ->
